@@ -777,6 +777,13 @@ class Exec:
                 n = len(tbl)
                 out = s_fresh('summ%d' % n, summ[fname])
                 ctx.assumptions.append(z3.And(out.ln >= 0, out.ln <= summ[fname]))
+                # functional consistency with the earlier applications: equal inputs give equal outputs
+                for (pargs, pout) in ctx.hooks.setdefault('_summ_apps', {}).get(fname, []):
+                    same_in = b_and(*[s_eq(a, b) for a, b in zip(args, pargs) if isinstance(a, Str) and isinstance(b, Str)])
+                    c = b_implies(same_in, s_eq(out, pout))
+                    if c is not True:
+                        ctx.assumptions.append(bl(c))
+                ctx.hooks['_summ_apps'].setdefault(fname, []).append((list(args), out))
                 tbl[key] = out
                 ctx.note('%s summarised as an uninterpreted function of its input (equal inputs give equal outputs; nothing else is assumed)' % fname)
             return (tbl[key], NILIFACE), heap, guard
